@@ -190,6 +190,12 @@ fn text_leg(rep: &mut Report, rng: &mut Rng, d: &MapsDiff, tgt: &Tgt, t: usize, 
         Err(pi) => { rep.violation(format!("C04 panic {}", pi.site()), json!({"panic": pi.message, "input": input()})); return LegResult { expected: exp.verdict(), seen: Seen::Panicked }; }
         Ok(o) => o,
     };
+    // Two equal columns `x<TAB>x`: "no change" (the repository reads them as None) - or an Edit(x, x) that still states the old value x.
+    // Under the second reading a row whose x is not the target's value is a mismatching stated old value: a refusal is accepted then.
+    if obs.is_err() && exp.reasons.is_empty() && exp.below_removed.is_empty() {
+        let mut stated = d.clone(); stated.info = nd.info.clone(); stated.comment = nd.comment.clone();
+        if ref_apply(&stated, tgt, t).verdict() != Verdict::Ok { rep.count("text.equal_columns_taken_as_stated_old_value.refusal (accepted)"); return LegResult { expected: exp.verdict(), seen: Seen::Refused }; }
+    }
     for (sig, w) in judge(&exp, &obs) { rep.violation(sig, json!({"where": w, "input": input(), "expected": outcome_json(&exp), "observed": obs_json(&obs)})); }
     LegResult { expected: exp.verdict(), seen: if obs.is_ok() { Seen::Applied } else { Seen::Refused } }
 }
